@@ -219,6 +219,7 @@ def main():
            "outside_claim": prop.get("outside_claim", []), "known_findings_printed": [], "jobs": [],
            "obligation_labels": {}, "engine_load_s": 0.0, "pruned_paths": 0, "exhaustive": True,
            "cross_solver": {"queries_rechecked": 0, "disagreements": 0, "details": []},
+           "transitions_rule": "transitions = solver-decided steps: symbolic branch / case-split decisions plus assertion instances posed; states = symbolic paths completed",
            "technique": "bounded symbolic execution of go/ssa of the current /repo tree; every branch and assertion decided by z3 (bit-vectors, FP)"}
     problems = []  # (code, text)
     violations = []  # dicts
@@ -285,7 +286,10 @@ def main():
                     eobs = r["observations"][i] if r.get("observations") else None
                     if eobs is None:
                         continue
-                    if eobs == obs:
+                    bad = [x for x in eobs if x == "PANIC" or x == "ASSUME-FAIL" or x.startswith("ENGINE-")]
+                    if bad:
+                        problems.append((3, f"ENGINE-MISMATCH {sname}/{jid}: witness {i} of a completed path does not complete when re-executed concretely: {bad[:2]} vector={reqs[req_meta.index((kind, jid, i))]['vector']}"))
+                    elif eobs == obs:
                         cov["traces_validated_against_impl"] += 1
                     else:
                         problems.append((3, f"ENGINE-MISMATCH {sname}/{jid}: witness {i} engine={eobs[:8]} native={obs[:8]} vector={reqs[req_meta.index((kind, jid, i))]['vector']}"))
@@ -303,7 +307,8 @@ def main():
             j = meta[r["id"]]
             expect = j.get("_expect", "hold")
             cov["states"] += r["paths"]
-            cov["transitions"] += r["decisions"]
+            cov["transitions"] += r["decisions"] + r["asserts"]
+            cov["branch_decisions"] = cov.get("branch_decisions", 0) + r["decisions"]
             cov["pruned_paths"] += r["pruned"]
             cov["obligations"] += r["asserts"]
             cov["discharged"] += r["discharged"]
